@@ -114,6 +114,7 @@ func writeRoot(t *testing.T, dir string, files []fileSpec) {
 func makeConfigs(t *testing.T, files []fileSpec) []*config {
 	top := filepath.Join(os.TempDir(), fmt.Sprintf("c24-%d", os.Getpid()))
 	os.RemoveAll(top)
+	t.Cleanup(func() { os.RemoveAll(top) })
 	root := func(n string) string {
 		d := filepath.Join(top, n)
 		writeRoot(t, d, files)
